@@ -15,6 +15,7 @@ from __future__ import annotations
 
 import copy
 import random
+import zlib
 import traceback
 
 from . import seqs as Q
@@ -241,7 +242,7 @@ def xcheck_contract(key, n_cases, seed):
         ref = SRC.resolve(c.target)
     except KeyError:
         return {"status": "skipped", "cases": 0, "detail": "target not found"}
-    rng = random.Random(hash((key, seed)) & 0xFFFFFFFF)
+    rng = random.Random(zlib.crc32(repr((key, seed)).encode()))  # stable across processes (str hashes are salted)
     done = 0
     tries = 0
     extra = 0
